@@ -129,6 +129,172 @@ def reach_terms(blocks, order, entry, edge_cond, forbid=()):
     return R
 
 
+MUTATING = re.compile(
+    r"^(?:std|async_std)::(?:fs|os::unix::fs)::(?:write|remove_file|remove_dir|remove_dir_all|rename|copy|create_dir|create_dir_all|"
+    r"set_permissions|hard_link|symlink|soft_link|File::create|File::create_new|File::options|File::set_len|OpenOptions::\w+|"
+    r"DirBuilder::\w+)\b|^tempfile::|^std::process::Command::")
+
+
+def split_functions(mir):
+    """{definition name: body text} for every fn of the dump"""
+    out = {}
+    for m in re.finditer(r"^fn (.+?)\((?:.*?)\) -> [^\n]*\{\n(.*?)^\}", mir, flags=re.M | re.S):
+        out[m.group(1)] = m.group(2)
+    for m in re.finditer(r"^fn (.+?)\((?:.*?)\) \{\n(.*?)^\}", mir, flags=re.M | re.S):
+        out.setdefault(m.group(1), m.group(2))
+    return out
+
+
+def impl_type(name):
+    """type an `<impl at file:line..>` definition belongs to, read from the source"""
+    m = re.search(r"<impl at (src/[^:]+):(\d+):", name)
+    if not m:
+        return None
+    try:
+        with open(os.path.join(REPO, m.group(1))) as f:
+            lines = f.read().splitlines()
+    except OSError:
+        return None
+    txt = " ".join(lines[int(m.group(2)) - 1:int(m.group(2)) + 3])
+    txt = txt.split("{")[0]
+    mm = re.search(r"\bfor\s+([A-Za-z_]\w*)", txt)
+    if mm:
+        return mm.group(1)
+    mm = re.search(r"impl(?:<[^>]*>)?\s+([A-Za-z_]\w*)", txt)
+    return mm.group(1) if mm else None
+
+
+def strip_generics(t):
+    out = []
+    depth = 0
+    i = 0
+    while i < len(t):
+        if t.startswith("::<", i) and depth == 0:
+            depth = 1
+            i += 3
+            continue
+        c = t[i]
+        if depth:
+            if c == "<":
+                depth += 1
+            elif c == ">":
+                depth -= 1
+            i += 1
+            continue
+        out.append(c)
+        i += 1
+    return "".join(out)
+
+
+def call_targets(body):
+    """callee texts of every call terminator in a body"""
+    out = []
+    for line in body.splitlines():
+        line = line.strip()
+        if " -> [" not in line or " = " not in line:
+            continue
+        rhs = line.split(" = ", 1)[1]
+        m = re.match(r"(.+?)\((?:.*)\) -> \[", rhs)
+        if m and not rhs.startswith(("const ", "move ", "copy ", "&")):
+            out.append(m.group(1))
+    return out
+
+
+def check_mode_call_graph(mir, blocks, order, cm_switch):
+    """(violations, reachable definitions) for: no mutating file-system call is reachable with --check"""
+    funcs = split_functions(mir)
+    keys = {}
+    for name in funcs:
+        base = name.split("::{closure")[0]
+        meth = base.split("::")[-1]
+        typ = impl_type(base)
+        keys[name] = (typ, meth)
+    generic_fn = "process_references"
+
+    def resolve(target):
+        """definitions a callee text may denote (over-approximation by type and method name)"""
+        t = target.strip()
+        m = re.match(r"<\{async fn body of (.+?)[<}]", t) or re.match(r"Pin::<&mut \{async fn body of (.+?)[<}]", t)
+        if m:
+            t = m.group(1)
+        m = re.match(r"<(.+?) as .+>::(\w+)", t)
+        if m:
+            typ, meth = strip_generics(m.group(1)).split("::")[-1], m.group(2)
+        else:
+            t = strip_generics(t)
+            segs = [x for x in t.split("::") if x]
+            if not segs:
+                return []
+            meth = segs[-1]
+            typ = segs[-2] if len(segs) > 1 and segs[-2][:1].isupper() else None
+        res = []
+        for name, (ktyp, kmeth) in keys.items():
+            if "::{closure" in name:
+                continue
+            if kmeth != meth:
+                continue
+            if typ is not None and ktyp is not None and typ != ktyp:
+                continue
+            if typ is None and ktyp is not None:
+                continue
+            if typ is not None and ktyp is None:
+                continue
+            res.append(name)
+        return res
+
+    def successors(name, body):
+        succ = set()
+        for other in funcs:
+            if other.startswith(name + "::{closure"):
+                succ.add(other)
+        muts = []
+        for tgt in call_targets(body):
+            plain = strip_generics(tgt)
+            if MUTATING.search(plain) or MUTATING.search(re.sub(r"^<\{async fn body of ", "", tgt)):
+                muts.append(tgt)
+            if tgt.startswith("<ProcessorType as "):
+                continue  # resolved at the call sites of the generic function
+            m = re.match(r"%s::<(\w+)" % generic_fn, tgt)
+            if m:
+                proc = m.group(1)
+                for nm, (ktyp, kmeth) in keys.items():
+                    if ktyp == proc and kmeth in ("map", "reduce") and "::{closure" not in nm:
+                        succ.add(nm)
+            for r in resolve(tgt):
+                succ.add(r)
+        return succ, muts
+
+    # seeds: calls in the blocks of main reachable with check_mode == true
+    cm = z3.BoolVal(True)
+
+    def cond(p, lab, tgt):
+        if p == cm_switch:
+            return z3.BoolVal(False) if lab == "0" else z3.BoolVal(True)
+        return z3.BoolVal(True)
+    R = reach_terms(blocks, order, order[0], cond)
+    main_body = "\n".join(blocks[b].term for b in order if z3.is_true(z3.simplify(R[b])))
+    seen = {}
+    work = []
+    s0, m0 = successors("main", main_body)
+    viol = [("main", m) for m in m0]
+    for x in s0:
+        seen[x] = "main"
+        work.append(x)
+    while work:
+        f = work.pop()
+        succ, muts = successors(f, funcs[f])
+        for m in muts:
+            chain = [f]
+            while seen.get(chain[-1]) and seen[chain[-1]] != "main":
+                chain.append(seen[chain[-1]])
+            viol.append((" <- ".join(chain + ["main"]), m))
+        for x in succ:
+            if x not in seen:
+                seen[x] = f
+                work.append(x)
+    return viol, sorted(seen)
+
+
 def analyse():
     t0 = time.time()
     mir = dump_mir()
@@ -172,8 +338,24 @@ def analyse():
                                "bound": "CFG of main (%d blocks) from the MIR dump; check_mode symbolic, every other branch nondeterministic" % len(blocks),
                                "witness": None if ok else {"text": None, "why": "generate_code is reachable with check_mode == true"},
                                "note": "generate_code reachable with check_mode: %s; check_references reachable without: %s" % (v1, v3)})
+        t2 = time.time()
+        viol, reach = check_mode_call_graph(mir, blocks, order, sw)
+        must = ["check_references", "load_code", "process_references"]
+        missing = [m for m in must if not any(r.split("::")[-1] == m for r in reach)]
+        if missing:
+            raise MirError("call graph does not reach %s from main in check mode: the dump no longer has the expected shape" % missing)
+        out["results"].append({"name": "m-c04-no-mutating-calls", "verdict": "holds" if not viol else "violated",
+                               "seconds": round(time.time() - t2, 3), "twin": "n/a",
+                               "bound": "call graph of the crate's MIR (%d definitions reachable from main with check_mode == true; trait calls "
+                                        "inside the generic process_references resolved at its call sites; closures and async bodies follow their "
+                                        "parent); mutating = std/async_std fs write/remove/rename/copy/create/set_permissions/OpenOptions, tempfile, "
+                                        "process::Command" % len(reach),
+                               "witness": None if not viol else {"text": None, "calls": viol[:5],
+                                                                 "why": "a file-system mutating call is reachable in check mode: %s in %s" % (viol[0][1], viol[0][0])},
+                               "note": "reachable definitions: %d" % len(reach), "reachable": reach[:60]})
     except MirError as e:
         out["errors"].append("m-c04-dispatch: %s" % e)
+        out["errors"].append("m-c04-no-mutating-calls: %s" % e)
     # ---------------------------------------------------------------- C18: registered signals
     try:
         regs = [b for b in order if re.search(r"= signal_hook::flag::register\(", blocks[b].term)]
